@@ -106,10 +106,14 @@ func runShard(t0 time.Time, shard, shards int) {
 
 	profiles := map[string]*profile{}
 	for _, d := range []string{"A", "B"} {
-		pr, err := takeProfile(reg, d)
-		if err != nil {
-			// retry once: profiling is setup, not a verdict
-			pr, err = takeProfile(reg, d)
+		// profiling is setup, not a verdict: retry (the handshake has a 1 s deadline and several shards start at once)
+		var pr *profile
+		var err error
+		for attempt := 0; attempt < 6; attempt++ {
+			if pr, err = takeProfile(reg, d); err == nil {
+				break
+			}
+			time.Sleep(500 * time.Millisecond)
 		}
 		if err != nil {
 			fmt.Fprintln(os.Stderr, "profile:", err)
